@@ -973,8 +973,18 @@ F3_ANY = [("/./", "wild"), ("/[^x]/", "inv"), ("/\\W/", "W"), ("/\\D/", "D"), ("
 
 def gen_f3(rng):
     r = rng
-    shape = r.choice(("records", "sep", "endelse", "tryend", "tryend", "waitend", "waitend", "endopt", "endopt"))
+    shape = r.choice(("records", "sep", "endelse", "tryend", "tryend", "waitend", "waitend", "endopt", "endopt", "yieldend", "yieldend"))
     spec = {"family": "F3", "shape": shape}
+    if shape == "yieldend":
+        # a yield immediately followed by `wait end` or by a wildcard: end() right after the yield code
+        lit = [r.choice(LET)] + [r.choice(LET) for _ in range(r.choice((0, 1, 2)))]
+        spec["lit"] = lit
+        spec["after"] = r.choice(("waitend", "wild", "inv"))
+        nxt = {"waitend": "wait end;", "wild": "/./;", "inv": "/[^x]/;"}[spec["after"]]
+        L = ["out int{size 2} n = 0;", "yieldcode GOT;", "", "parser {", "    %s;" % esc(lit), "    yield GOT;", "    " + nxt, "    n = 3;", "}"]
+        spec["source"] = "\n".join(L) + "\n"
+        spec["need"] = ["-feof-support", "-fyield-support"]
+        return spec
     if shape == "endopt":
         # an `end` pattern followed by something that may match nothing: the accept state still has live transitions
         pre = [r.choice(LET)] + [r.choice(LET) for _ in range(r.choice((0, 1)))]
@@ -1023,6 +1033,9 @@ def gen_f3(rng):
 
 def f3_inputs(rng, spec, count):
     res = []
+    if spec["shape"] == "yieldend":
+        lit = bytes(spec["lit"])
+        return [lit, lit + b"q", lit + b"qq", lit[:-1], b"", lit + b"\xff"]
     if spec["shape"] == "endopt":
         pre = bytes(spec["pre"])
         return [pre, pre + b"\n", pre + b"\n#", pre[:1] if len(pre) > 1 else b"", pre + b"x", pre + b"\n##"]
@@ -1093,6 +1106,26 @@ def check_f3(spec, data, canon, flags):
         code = group[-1].code
         hooks = [e[0] for c in group for e in c.events]
         snap = group[-1].snap
+        if spec["shape"] == "yieldend":
+            lit = bytes(spec["lit"])
+            nval = [x.split("=")[1] for x in snap.split(";") if x.startswith("n=")]
+            nval = int(nval[0]) if nval else None
+            if pre == lit:
+                # end() right after the literal (the yield delivered or still pending): `wait end` completes the
+                # program and runs what follows; a wildcard / inverted set never matches end-of-input
+                if spec["after"] == "waitend":
+                    if code != "DONE" or nval != 3:
+                        F("wait-end-after-yield", "end() right after the yield: code %s n=%s (expected DONE, n=3)" % (code, nval))
+                        return out
+                else:
+                    if code != "FAIL" or nval != 0:
+                        F("wildcard-matched-eof-after-yield", "end() right after the yield: code %s n=%s (expected FAIL, n=0)" % (code, nval))
+                        return out
+            elif len(pre) < len(lit) and lit.startswith(pre):
+                if code != "FAIL":
+                    F("end-inside-literal", "end() inside the leading literal returned %s" % code)
+                    return out
+            continue
         if spec["shape"] == "endopt":
             p = bytes(spec["pre"])
             nval = [x.split("=")[1] for x in snap.split(";") if x.startswith("n=")]
